@@ -179,7 +179,9 @@ Section DiscX.
       store (db s') = filter (fun e => bnum (eb a) - kept <=? bnum (eb e))
                              (mark_all (store (db s) ++ [mkEntry b false]) (unsent (map seg_of (B' ++ [mkEntry b false])))) /\
       libref (db s') = R (eb a) /\ extra (db s') = None /\ last_sent s' = Some b /\ last_lib_seen s' = R (eb a) /\
-      In (eb a) U /\ In (key a) (keys (store (db s))) /\ bnum (eb a) < bnum b.
+      In (eb a) U /\ In (key a) (keys (store (db s))) /\ bnum (eb a) < bnum b /\
+      NoDup (keys (mark_all (store (db s) ++ [mkEntry b false]) (unsent (map seg_of (B' ++ [mkEntry b false]))))) /\
+      in_U (mark_all (store (db s) ++ [mkEntry b false]) (unsent (map seg_of (B' ++ [mkEntry b false])))).
   Proof.
     intros HP Hb Hf Hc Hbl. pose proof HP as [Hl He Hnd HU Hun Hls Hlls Hrt].
     set (en := mkEntry b false) in *. set (l1 := store (db s) ++ [en]) in *.
@@ -242,6 +244,9 @@ Section DiscX.
     split; [exact Hls'|]. split; [exact Hlls'|]. split; [exact HaU|]. split.
     - apply in_app_or in Ha as [Ha|[Ea|[]]]; [apply (in_map key) in Ha; exact Ha|].
       exfalso. apply Hne. rewrite <- Ea. reflexivity.
-    - apply (Habove en). apply in_or_app. right. left. reflexivity.
+    - split; [apply (Habove en); apply in_or_app; right; left; reflexivity|].
+      pose proof HI3 as [Hd3 _ _ _].
+      assert (E : mark_all l1 (unsent (map seg_of (B' ++ [en]))) = store (db s3)) by (symmetry; exact Hst3).
+      rewrite E. split; [exact (di_nodup U _ _ Hd3) | exact (di_inU U _ _ Hd3)].
   Qed.
 End DiscX.
